@@ -266,7 +266,7 @@ const Z: Option<T> = Some(0.0);
 extra_bounds!(xb_jab, XJab, |v| XJab::new(v[0], v[1], v[2]), |c| vec![c.lightness, c.a, c.b],
               [mm!(XJab, min_lightness, max_lightness), FREE, FREE]);
 extra_bounds!(xb_jmh, XJmh, |v| XJmh::new(v[0], v[1], v[2]), |c| vec![c.lightness, c.colorfulness, c.hue.into_inner()],
-              [mm!(XJmh, min_lightness, max_lightness), mn!(XJmh, min_colorfulness), FREE]);
+              [mm!(XJmh, min_lightness, max_lightness), mm!(XJmh, min_colorfulness, max_srgb_colorfulness), FREE]);
 // CAM16 attributes have no accessors: "0 and up" is what the documentation of the fields says
 extra_bounds!(xb_jch, XJch, |v| XJch::new(v[0], v[1], v[2]), |c| vec![c.lightness, c.chroma, c.hue.into_inner()], [(Z, None), (Z, None), FREE]);
 extra_bounds!(xb_qsh, XQsh, |v| XQsh::new(v[0], v[1], v[2]), |c| vec![c.brightness, c.saturation, c.hue.into_inner()], [(Z, None), (Z, None), FREE]);
